@@ -1,5 +1,5 @@
 #!/usr/bin/env python3
-"""collects the evaluation of every seeded change (seeded/<id>/eval.txt, check.*.log) into meta.json and prints a table"""
+"""collects the evaluation of every seeded change (seeded/<id>/confirm.txt, check.<Cxx>.log) into meta.json and prints the table"""
 import glob, json, os, re
 ROOT = os.path.dirname(os.path.dirname(os.path.abspath(__file__)))
 rows = []
@@ -9,45 +9,42 @@ for d in sorted(glob.glob(os.path.join(ROOT, "seeded", "*"))):
     if not os.path.exists(mp):
         continue
     meta = json.load(open(mp))
-    ev = open(os.path.join(d, "eval.txt")).read() if os.path.exists(os.path.join(d, "eval.txt")) else ""
-    sections = re.split(r"^== ", ev, flags=re.M)
+    pid = meta.get("property") or mid.split("-")[0]
+    cf = open(os.path.join(d, "confirm.txt")).read() if os.path.exists(os.path.join(d, "confirm.txt")) else ""
+    parts = re.split(r"^== ", cf, flags=re.M)
     def sec(name):
-        for s in sections:
-            if s.startswith(name):
-                return s
-        return ""
-    clean_demo = "ok. 1 passed" in sec("clean tree: demo") or "test result: ok" in sec("clean tree: demo")
+        return next((s for s in parts if s.startswith(name)), "")
+    clean_demo = "test result: ok" in sec("clean tree: demo")
     lib_ok = "443 passed" in sec("patched: lib tests")
     demo_fails = "FAILED" in sec("patched: demo")
     checks = {}
-    for s in sections:
-        m = re.match(r"check (C\d+) quick", s)
-        if m:
-            pid = m.group(1)
-            viol = len(re.findall(r"^VIOLATION", s, flags=re.M))
-            nofail = len(re.findall(r"no-failing-input-found", s))
-            ex = re.search(r"^exit=(\d+)", s, flags=re.M)
-            summ = re.search(r"outcomes (\{[^}]*\})", s)
-            checks[pid] = {"exit": int(ex.group(1)) if ex else None, "violation_lines": viol,
-                           "of_which_no_failing_input": nofail, "outcomes": summ.group(1) if summ else None}
+    for lf in sorted(glob.glob(os.path.join(d, "check.C*.log"))):
+        p = re.search(r"check\.(C\d+)\.log", lf).group(1)
+        s = open(lf).read()
+        ex = re.findall(r"^exit=(\d+)", s, flags=re.M)
+        summ = re.search(r"outcomes (\{[^}]*\})", s)
+        checks[p] = {"exit": int(ex[-1]) if ex else None,
+                     "violation_lines": len(re.findall(r"^VIOLATION", s, flags=re.M)),
+                     "of_which_no_failing_input": len(re.findall(r"no-failing-input-found", s)),
+                     "outcomes": summ.group(1) if summ else None}
     meta["evaluation"] = {"demo_passes_on_clean_tree": clean_demo, "suite_passes_with_change": lib_ok,
                           "demo_fails_with_change": demo_fails, "checks": checks,
-                          "how": "tools/mutant_eval.sh (isolated copy of /verif + worktree of /repo HEAD with the patch applied)"}
+                          "how": "tools/mutant_confirm.sh in a scratch worktree; tools/mutant_check.sh: git -C /repo apply, ./check <id> quick, git -C /repo checkout -- ."}
     json.dump(meta, open(mp, "w"), indent=1)
-    own = checks.get(meta.get("property", mid.split("-")[0]), {})
-    det = "—"
-    if own:
-        if own["exit"] == 1 and own["violation_lines"] > own["of_which_no_failing_input"]:
-            det = "yes: concrete failing input"
-        elif own["exit"] == 1:
-            det = "yes: correspondence/obligation broken, no failing input found"
-        elif own["exit"] == 0:
-            det = "**MISSED**"
-        else:
-            det = f"exit {own['exit']}"
-    others = [p for p, c in checks.items() if p != meta.get("property") and c["exit"] == 1]
-    rows.append((mid, meta.get("summary", "")[:150].replace("|", "/"), "yes" if (clean_demo and lib_ok and demo_fails) else "NO", det, ",".join(others)))
-print("| id | change | confirmed | caught by its property's quick check | also caught by |")
+    def verdict(c):
+        if not c:
+            return "not run"
+        if c["exit"] == 1 and c["violation_lines"] > c["of_which_no_failing_input"]:
+            return "caught (failing input)"
+        if c["exit"] == 1:
+            return "caught (no-failing-input-found)"
+        if c["exit"] == 0:
+            return "**missed**"
+        return f"exit {c['exit']}"
+    others = [f"{p}: {verdict(c)}" for p, c in checks.items() if p != pid]
+    rows.append((mid, meta.get("summary", "").replace("|", "/").replace("\n", " ")[:170],
+                 "yes" if (clean_demo and lib_ok and demo_fails) else "NO", verdict(checks.get(pid)), "; ".join(others)))
+print("| id | change (abridged) | confirmed | its property's quick check | other checks run |")
 print("|---|---|---|---|---|")
 for r in rows:
     print("| " + " | ".join(r) + " |")
